@@ -529,6 +529,20 @@ func (s *Sys) fireFaults() bool {
 			due = true // armed immediately: the runtime counts writes itself
 		case "devset":
 			due = true // armed immediately: the device counts its Sets itself
+		case "after-devset":
+			// right after the device answered its N-th Set: the issuing reconcile is about to record the outcome
+			if d := s.Devs[f.Target]; d != nil {
+				d.mu.Lock()
+				due = len(d.Log) >= f.N
+				d.mu.Unlock()
+			}
+		case "during-devset":
+			// while the device's N-th (or a later) Set is in flight
+			if d := s.Devs[f.Target]; d != nil {
+				d.mu.Lock()
+				due = d.NSets >= f.N && len(d.Log) < d.NSets
+				d.mu.Unlock()
+			}
 		}
 		if !due {
 			continue
@@ -580,10 +594,13 @@ func (s *Sys) fireFaults() bool {
 			}
 		case "dev-drop":
 			s.Devs[f.Target].Faults[f.N] = DevFault{Kind: "apply-then-drop"}
-		case "op-unavail":
-			s.RT.OpFaults[f.N] = "unavail"
-		case "op-acklost":
-			s.RT.OpFaults[f.N] = "acklost"
+		case "op-unavail", "op-acklost":
+			n := f.N
+			if f.On == "after-devset" || f.On == "during-devset" {
+				// relative: the Burst-th Atomix write from now on
+				n = s.RT.Writes + 1 + f.Burst
+			}
+			s.RT.OpFaults[n] = strings.TrimPrefix(f.Kind, "op-")
 		case "stall":
 			s.K.Trace = append(s.K.Trace, "fault/stall")
 			s.K.Stat("fault/stall")
